@@ -965,6 +965,9 @@ def _closure_elem_params(ctx, cterm):
     the same term a `for x in receiver` loop reads — loop form and closure form then look alike."""
     for bi, t, args in call_sites(ctx, lambda n: "Iterator::" in n and n.split("::")[-1] in ELEM_CLOSURE_METHODS):
         if len(args) == 2 and args[1][0] == "closure" and args[1][1] == cterm[1]:
+            if args[0][0] == "call" and args[0][1] in ("std::option::Option::iter", "std::option::Option::iter_mut") and args[0][2]:
+                # an Option used as a zero-or-one element collection: the element is its payload
+                return {2: ("payload", args[0][2][0], "Ok/Some")}
             return {2: ("payload", ("call", "std::iter::Iterator::next", (args[0],)), "Ok/Some")}
     # Option / Result combinators: the closure receives the Some / Ok payload of the receiver
     for bi, t, args in call_sites(ctx, lambda n: n in ("std::option::Option::map", "std::option::Option::and_then", "std::option::Option::filter", "std::option::Option::is_some_and", "std::result::Result::map", "std::result::Result::and_then")):
@@ -1193,6 +1196,17 @@ def resolve_terms(prog, t, depth=3, _memo=None, assumptions=()):
                     rt_ = cc.settle().T.return_term()
                     if not contains(rt_, lambda s_: s_[0] in ("cycle", "undef")):
                         out = rec(rt_, depth - 1)
+            if out is None and assumptions and t[1].endswith("Iterator::collect") and args and args[0][0] == "call" and args[0][1].endswith("Iterator::map") and len(args[0][2]) == 2:
+                # opt.iter().map(f).collect(): zero or one element, decided by the world
+                src_, clo_ = args[0][2]
+                if src_[0] == "call" and src_[1] in ("std::option::Option::iter", "std::option::Option::iter_mut") and src_[2] and clo_[0] == "closure" and prog.body(clo_[1]) is not None:
+                    a = assumed_ok(assumptions, src_[2][0])
+                    if a is False:
+                        out = ("call", "vec!", ())
+                    elif a is True:
+                        caps = {n: v for _, n, v in clo_[2]}
+                        c2 = Ctx(prog.body(clo_[1]), params={2: ok_payload(src_[2][0])}, captures=caps, assumptions=assumptions).settle()
+                        out = ("call", "vec!", (rec(c2.T.return_term(), depth - 1),))
             if out is None and assumptions and t[1] == "std::option::Option::map" and len(args) == 2:
                 # Option::map of a value whose variant the world fixes
                 a = assumed_ok(assumptions, args[0])
